@@ -357,6 +357,35 @@ fn invlpgb_all(r: &mut Rep, a: &Args) {
             if !(ev.len() == 1 && matches!(ev[0], Ev::Invlpgb(rax, ecx, edx) if rax == 0 && ecx == 0 && edx == 0)) {
                 r.viol("C11|Invlpgb::flush|no-range-is-not-one-request-without-address", "invlpgb norange", &format!("{:x?}", ev));
             }
+            // ranges given by their two ends, the end below the start: empty like any other empty range - no request at all
+            for (s0, e0) in [(0x2000u64, 0x1000u64), (0x40_0000, 0x20_0000), (0x7fff_ffe0_0000, 0x1000), (0xffff_8000_0020_0000, 0x7fff_ffe0_0000), (0xffff_ffff_ffe0_0000, 0xffff_8000_0000_0000), (0x20_0000, 0)] {
+                for opt in [0u32, 1, 5, 15] {
+                    macro_rules! rev {
+                        ($S:ty) => {{
+                            if s0 % <$S>::SIZE == 0 && e0 % <$S>::SIZE == 0 {
+                                let range = Page::<$S>::range(Page::from_start_address(VirtAddr::new(s0)).unwrap(), Page::from_start_address(VirtAddr::new(e0)).unwrap());
+                                cpu().clear_events();
+                                let _ = run_fault(|| {
+                                    let mut b = inv.build();
+                                    if opt & 1 != 0 { unsafe { b.pcid(Pcid::new(5).unwrap()) }; }
+                                    if opt & 4 != 0 { b.include_global(); }
+                                    if opt & 8 != 0 { b.final_translation_only(); }
+                                    let mut b = b.pages(range);
+                                    if opt & 2 != 0 { unsafe { b.asid(3).ok() }; }
+                                    b.flush()
+                                });
+                                let ev = cpu().evs();
+                                r.ev(true);
+                                if !ev.is_empty() {
+                                    r.viol("C11|Invlpgb::flush|empty-range-issues-requests", &format!("invlpgb reversed {} {:#x} {:#x} {}", <$S>::DEBUG_STR, s0, e0, opt), &format!("{:x?}", ev));
+                                }
+                            }
+                        }};
+                    }
+                    rev!(Size4KiB);
+                    rev!(Size2MiB);
+                }
+            }
             // asid out of range is rejected
             {
                 let mut b = inv.build();
